@@ -115,6 +115,10 @@ let () = iter_lines (fun line ->
                 print_endline ("x" ^ String.concat "" (List.map (fun (c, d) ->
                     Printf.sprintf " m %d %d %s ;" (int_of_z c) (zlen d) (fnv d)) segs)))
        | _ -> print_endline "err")
+  | [ "subsamp"; cs; comps ] ->
+      let cl = List.map (fun it -> match List.map int_of_string (String.split_on_char '.' it) with
+          | [a; b] -> (z_of_int a, z_of_int b) | _ -> failwith "samp") (split_on ',' comps) in
+      print_endline (string_of_int (int_of_z (get_subsamp (cspace_of_int (int_of_string cs)) cl)))
   | [ "tjx"; sm; cn; wj; wa; dicc; hx ] ->
       (match unhex hx with
        | _ :: _ :: rest ->
